@@ -481,6 +481,64 @@ fn main() {
             }
         }
     }
+    if args.prop == "C02" || args.prop == "C09" {
+        // wide cases: more than a thousand requests outstanding at once on the serialized
+        // bridges (registry growth), answered out of order until few are left, with new
+        // requests registered all the way (every 23rd task asks again after its answer)
+        let n = args.share(8, 640);
+        for case_no in 0..n {
+            let mut rng = Rng::derive(seed, case_no, 909);
+            let state = rng.state();
+            let width = rng.range(1100, if args.thorough() { 4200 } else { 2400 }) as usize;
+            let mut items = vec![];
+            for i in 0..width {
+                let site = 100_000 + i as u32;
+                let mut instrs = vec![Instr::Req { site, arg: None }, Instr::Emit { tag: site, reg: Some(0) }];
+                if i % 23 == 0 {
+                    instrs.push(Instr::Req { site: site + 1_000_000, arg: None });
+                    instrs.push(Instr::Emit { tag: site + 1_000_000, reg: Some(1) });
+                }
+                items.push(if i % 7 == 3 {
+                    Cmd::Chain(Chain { head: Head::Request(site), stages: vec![] }, site)
+                } else {
+                    Cmd::Async(Script { instrs })
+                });
+            }
+            let program = Cmd::All(items);
+            let setup = Setup::Bridges;
+            let (mut hosts, modes) = make_hosts(setup, &program, &mut rng, 1);
+            let mut cfg = RunCfg::default_for(width + width / 3);
+            cfg.noop = false;
+            cfg.abort = false;
+            wd.begin(|| json!({"lane": "cmdlab-wide", "width": width, "rng_state": state}).to_string());
+            let outcome = vcommon::trap(|| run_case(&program, &mut hosts, &modes, &mut rng, &cfg, None));
+            wd.end();
+            let mut r = report.lock().unwrap();
+            r.eval();
+            r.count("wide_cases", 1);
+            match outcome {
+                Ok(outcome) => {
+                    let s = &outcome.stats;
+                    r.count("steps", s.steps as u64);
+                    r.count("effects_observed", s.effects as u64);
+                    r.count("events_observed", s.events as u64);
+                    r.count("resolutions", s.resolves as u64);
+                    r.count("out_of_issue_order_resolutions", s.out_of_order as u64);
+                    r.max("max_outstanding_requests", s.max_outstanding as u64);
+                    r.nontrivial(hash_json(&(width, state)));
+                    record_findings(&mut r, setup, &program, &hosts, &outcome, state);
+                }
+                Err(panic) => {
+                    let site = vcommon::panic_site(&panic);
+                    r.violation(
+                        &format!("panic/{site}"),
+                        &format!("panic while running a wide case: {panic}"),
+                        json!({"lane": "cmdlab-wide", "width": width, "rng_state": state, "panic": panic}),
+                    );
+                }
+            }
+        }
+    }
     if args.prop == "C02" {
         // look-alike workload: equal operations, only the request identity tells them apart
         let n = args.share(4_000, 2_000_000);
